@@ -319,7 +319,9 @@ def r08_2(prog, rep):
             break
         if (a - b_ - 365) != ((bits >> m) & 1):
             bad.append((m, a - b_ - 365, (bits >> m) & 1))
-    if bad is None:
+    if bad is None and any(c_.get("fn") == "echs_instant_to_epoch" for b, i, x, line in itf.cfg.all_elems() if isinstance(x, dict) for c_ in calls(x)):
+        rep.ok(rid, "instant_to_tstamp/leap-term", itf.loc(), "no day count of its own (library conversion; R08.11 decides)", nontrivial=False)
+    elif bad is None:
         rep.broken_("rule=R08.2 instant_to_tstamp: the day count could not be evaluated by constant propagation")
     elif bad:
         rep.fail(rid, "instant_to_tstamp/leap-term", itf.loc(),
@@ -344,6 +346,9 @@ def r08_2(prog, rep):
         else:
             rep.fail(rid, "echsd/epoch-constant", it.loc(), "daemon epoch constant %d, but %d-01-00 is %d days after 1970-01-01: every wake-up is off by %d day(s)" % (
                 consts[0], base, want, consts[0] - want))
+    elif any(c_.get("fn") == "echs_instant_to_epoch" for b, i, x, line in it.cfg.all_elems() if isinstance(x, dict) for c_ in calls(x)):
+        rep.ok(rid, "echsd/epoch-constant", it.loc(), "instant_to_tstamp() has no day count of its own: it goes through the library's conversion "
+               "(what it returns is decided by R08.11)", nontrivial=False)
     else:
         rep.fail(rid, "echsd/epoch-constant", it.loc(), "cannot find the base year / epoch constant of instant_to_tstamp")
     # epoch constants of the library: 1970-01-01 must map to day DAISY_UNIX_BASE in the March-based count from DAISY_BASE_YEAR
@@ -783,6 +788,108 @@ def r08_9(prog, rep, rid="R08.9"):
         rep.ok(rid, key, f.loc(), "%d additions across year ends and leap days agree with the calendar" % n)
 
 
+def _epoch_walk(prog, inst):
+    """What __inst_to_epoch() returns for one instant (y, m, d, H, M, S), by a value-fixed walk of its CFG in the types the compiler
+    gave its expressions (unsigned sums wrap)."""
+    from ..absw import AbsWalk, eval_in
+    f = prog.fn("__inst_to_epoch", "tzob.c")
+    cfg = f.cfg
+    ip = f.params[0]["n"]
+    init = {"%s.%s" % (ip, k_): v_ for k_, v_ in zip(("y", "m", "d", "H", "M", "S", "ms"), tuple(inst) + (0,))}
+    outs = []
+
+    def effect(b, i, x, store):
+        if isinstance(x, dict) and x.get("k") == "ret" and x.get("e") is not None:
+            outs.append(eval_in(store, cfg.resolve(x["e"]), f))
+        return None
+    AbsWalk(f, {l_["n"] for l_ in f.locals}, init=init, effect=effect, max_states=5000).run()
+    if len(set(outs)) != 1:
+        raise AnalysisBroken("__inst_to_epoch(%s): no single result (%s)" % (inst, outs[:2]))
+    return outs[0]
+
+
+def r08_10(prog, rep, rid="R08.10"):
+    """The seconds since the unix epoch of an instant, over the whole supported range: negative before 1970, beyond 2^31 after January
+    2038.  __inst_to_epoch() is walked for the first and last second of the range, both sides of 1970, of the base year of its day
+    count and of the 32-bit limits, every leap day's neighbourhood sampled, and compared with the calendar."""
+    import calendar
+    f = prog.fn("__inst_to_epoch", "tzob.c")
+    cases = [(1901, 1, 1, 0, 0, 0), (1901, 12, 13, 20, 45, 52), (1904, 2, 29, 12, 0, 0), (1947, 2, 28, 23, 59, 59), (1947, 12, 31, 23, 59, 59),
+             (1948, 1, 1, 0, 0, 0), (1948, 2, 29, 12, 0, 0), (1948, 3, 1, 0, 0, 0), (1969, 12, 31, 23, 59, 59), (1970, 1, 1, 0, 0, 0),
+             (1970, 3, 1, 0, 0, 0), (2000, 2, 29, 23, 59, 59), (2001, 1, 1, 0, 0, 0), (2038, 1, 19, 3, 14, 7), (2038, 1, 19, 3, 14, 8),
+             (2038, 1, 19, 12, 0, 0), (2096, 2, 29, 0, 0, 0), (2099, 12, 31, 23, 59, 59)]
+    cases += [(y, m, 1, 6, 30, 0) for y in (1902, 1950, 1972, 2040, 2098) for m in range(1, 13)]
+    bad = {"before-1970": [], "from-1970": []}
+    cnt = {"before-1970": 0, "from-1970": 0}
+    for c in cases:
+        want = calendar.timegm(c + (0, 0, 0))
+        got = _epoch_walk(prog, c)
+        k_ = "before-1970" if c[0] < 1970 else "from-1970"
+        cnt[k_] += 1
+        if got != want:
+            bad[k_].append(("%04d-%02d-%02dT%02d:%02d:%02d" % c, got, want))
+    for k_ in ("from-1970", "before-1970"):
+        key = "__inst_to_epoch/%s" % k_
+        if bad[k_]:
+            rep.fail(rid, key, f.loc(), "%d of %d instants do not convert to their unix time, e.g. %s" % (len(bad[k_]), cnt[k_], "; ".join(
+                "%s gives %s instead of %d" % b_ for b_ in bad[k_][:3])) + (": a job due after 2038-01-19 looks overdue, zone offsets are "
+                "looked up for a time in 1901" if k_ == "from-1970" else ": zone offsets of such an instant are looked up for a time after 2106"),
+                {"examples": [list(b_) for b_ in bad[k_][:20]]})
+        else:
+            rep.ok(rid, key, f.loc(), "%d instants convert to their unix time" % cnt[k_])
+
+
+def r08_11(prog, rep, rid="R08.11"):
+    """The time the daemon arms a task for: instant_to_tstamp() is walked for instants of its range (2001..2099) — timed ones, and
+    all-day ones, which stand for the start of their day — and compared with the calendar.  A call of the library's conversion inside it
+    is followed with the library's own walk (which reads the all-day marker as hour 24)."""
+    import calendar
+    from ..absw import AbsWalk, eval_in
+    f = prog.fn("instant_to_tstamp", "echsd.c")
+    cfg = f.cfg
+    ip = f.params[0]["n"]
+    FL = ("y", "m", "d", "H", "M", "S", "ms")
+    cases = [(2001, 1, 1, 0, 0, 0), (2004, 2, 29, 12, 0, 0), (2004, 3, 1, 0, 0, 1), (2026, 10, 4, 11, 30, 0), (2038, 1, 19, 3, 14, 8),
+             (2099, 12, 31, 23, 59, 59), (2020, 2, 29, 0xff, 0, 0), (2001, 1, 1, 0xff, 0, 0), (2099, 12, 31, 0xff, 0, 0)]
+    cases += [(y, m, 1, 6, 30, 0) for y in (2024, 2025) for m in range(1, 13)] + [(2024, m, 15, 0xff, 0, 0) for m in (1, 2, 3, 12)]
+    bad = []
+
+    def call_eval(c, store):
+        nm = c.get("fn")
+        a0 = lv(strip_casts(cfg.resolve(c["a"][0]))) if c.get("a") else None
+        if nm == "echs_instant_all_day_p":
+            v = store.get("%s.H" % a0)
+            return None if v is None else int(v == 0xff)
+        if nm == "echs_instant_all_sec_p":
+            v = store.get("%s.ms" % a0)
+            return None if v is None else int(v == 0x3ff)
+        if nm == "echs_instant_to_epoch":
+            vals = tuple(store.get("%s.%s" % (a0, k_)) for k_ in FL[:6])
+            return None if None in vals else _epoch_walk(prog, vals)
+        return None
+    for c in cases:
+        init = {"%s.%s" % (ip, k_): v_ for k_, v_ in zip(FL, c + (0,))}
+        outs = []
+
+        def effect(b, i, x, store, outs=outs):
+            if isinstance(x, dict) and x.get("k") == "ret" and x.get("e") is not None:
+                outs.append(eval_in(store, cfg.resolve(x["e"]), f, call_eval))
+            return None
+        AbsWalk(f, {l_["n"] for l_ in f.locals}, init=init, effect=effect, call_eval=call_eval, max_states=5000).run()
+        if len(set(outs)) != 1 or outs[0] is None:
+            raise AnalysisBroken("instant_to_tstamp(%s): no single result (%s)" % (c, outs[:2]))
+        allday = c[3] == 0xff
+        want = calendar.timegm((c[0], c[1], c[2], 0 if allday else c[3], c[4], c[5], 0, 0, 0))
+        if outs[0] != want:
+            bad.append(("%04d-%02d-%02d%s" % (c[0], c[1], c[2], " (all day)" if allday else "T%02d:%02d:%02d" % c[3:6]), outs[0], want))
+    key = "instant_to_tstamp/agrees-with-the-calendar"
+    if bad:
+        rep.fail(rid, key, f.loc(), "%d of %d instants are armed for another second than theirs, e.g. %s" % (len(bad), len(cases), "; ".join(
+            "%s is armed for %s instead of %d (%+d s)" % (b_[0], b_[1], b_[2], b_[1] - b_[2]) for b_ in bad[:3])), {"examples": [list(b_) for b_ in bad[:20]]})
+    else:
+        rep.ok(rid, key, f.loc(), "%d instants (timed and all-day) are armed for their own second" % len(cases))
+
+
 def run(prog, rep, tier, snap):
     rep.rule("R08.1", "64-bit evaluation of millisecond quantities", 6)
     rep.call(r08_1, prog, rep)
@@ -803,4 +910,8 @@ def run(prog, rep, tier, snap):
     rep.call(state.no_carried_state, prog, rep, "R08.8", "time")
     rep.rule("R08.9", "echs_instant_add() agrees with the calendar across year ends and leap days (value-fixed walk)", 1)
     rep.call(r08_9, prog, rep)
+    rep.rule("R08.10", "the library's instant -> unix time conversion over 1901..2099, both sides of 1970 and 2038 (value-fixed walk)", 2)
+    rep.call(r08_10, prog, rep)
+    rep.rule("R08.11", "the daemon's wake-up time of an instant agrees with the calendar, all-day instants at the start of their day (value-fixed walk)", 1)
+    rep.call(r08_11, prog, rep)
 READY = True
